@@ -180,6 +180,28 @@ func RunFlow(f *ssa.Function, spec FlowSpec) *Flow {
 						}
 					}
 				case ssa.Value:
+					if call, isCall := x.(*ssa.Call); isCall {
+						// a callee handed the address of a local may fill it from its
+						// other arguments (weak update of the whole local)
+						var all Label
+						for _, a := range call.Call.Args {
+							all |= fl.get(a)
+						}
+						for _, a := range call.Call.Args {
+							if _, isPtr := a.Type().Underlying().(*types.Pointer); !isPtr {
+								continue
+							}
+							if al, ok := AddrRoot(a).(*ssa.Alloc); ok && all != 0 {
+								k := cellKey{al, AddrPath(a)}
+								st[k] = effective(st, k) | all
+								for k2 := range st { // sub-cells too
+									if k2.root == al && len(k2.path) > len(k.path) && hasPrefix(k2.path, k.path) {
+										st[k2] |= all
+									}
+								}
+							}
+						}
+					}
 					nl := fl.eval(x, st)
 					if fl.spec.Irrelevant != nil && fl.spec.Irrelevant(x.Type()) {
 						nl = 0
@@ -379,6 +401,9 @@ func (fl *Flow) eval(v ssa.Value, st cells) Label {
 	case *ssa.Extract:
 		return fl.get(x.Tuple)
 	case *ssa.Slice:
+		if al, ok := x.X.(*ssa.Alloc); ok && st != nil {
+			return fl.allocLabel(al, st) // slice of a local array (varargs, literals): its elements
+		}
 		return fl.get(x.X)
 	case *ssa.MakeInterface:
 		if al, ok := x.X.(*ssa.Alloc); ok && st != nil {
